@@ -994,6 +994,29 @@ impl Family for CodecWFamily {
                 }
             }
         }
+        // round-6 seed C10-6: anchored decoder input that yields NO output (an invalid first header, or
+        // a call on a decoder already in error) leaves a zero-count anchor on an iovec holding no slice;
+        // the next consume - even of nothing - must drop it.  Blocks large enough that the arena rolls
+        // to a new chunk between calls, so a retained anchor shows in the live-chunk lines.
+        for (block, rounds) in [(3000usize, 4usize), (2500, 5), (70000, 3)] {
+            for drain in ["drain_all", "drain_slices 1", "drain_bytes 7", "drain_read 9"] {
+                for good_first in [false, true] {
+                    let mut ops = vec!["dec_new prod".to_string()];
+                    if good_first {
+                        ops.push("feed a 0261fefd".to_string());
+                        ops.push(drain.to_string());
+                    }
+                    for r in 0..rounds {
+                        let mut src = vec![0xffu8];
+                        src.extend((1..block).map(|k| (k as u8).wrapping_mul(31).wrapping_add(r as u8) % 250));
+                        ops.push(format!("feed_read {} 2 {} d100000", block, to_hex(&src)));
+                        ops.push(drain.to_string());
+                    }
+                    ops.push("drain_all".to_string());
+                    cases.push(ops);
+                }
+            }
+        }
         cases
     }
 
